@@ -33,6 +33,49 @@ Lemma srv_swap_spec cp cw np nw :
   srv_swap cp cw np nw = ((np <? cp) || ((cp =? np) && (cw <? nw))).
 Proof. unfold srv_swap. lia. Qed.
 
+(* the remaining guards of message_name_get / message_name_append_safe, as the proofs below use them *)
+Lemma idx_guard_spec i l : idx_guard i l = (l <=? i).
+Proof. unfold idx_guard. lia. Qed.
+Lemma label_end_guard_spec e l : label_end_guard e l = (l <=? e) /\ label_end_adjust = 1.
+Proof. unfold label_end_guard. split; [lia|reflexivity]. Qed.
+(* "We have filled the name buffer. Don't pass it recursively": exactly when no cell is left *)
+Lemma name_full_spec nlen nmax : name_full nlen nmax = ((nmax <=? nlen) && (0 <? nmax)).
+Proof. unfold name_full. lia. Qed.
+Lemma room_left_spec nmax nlen : room_left nmax nlen = Z.max 0 (nmax - nlen).
+Proof. unfold room_left. destruct (nmax >? nlen) eqn:E; lia. Qed.
+Lemma copy_guard_spec c : copy_guard c = (0 <? c).
+Proof. unfold copy_guard. lia. Qed.
+Lemma term_guard_spec m : term_guard m = (0 <? m).
+Proof. unfold term_guard. lia. Qed.
+Lemma fixup_guard_spec n : fixup_guard n = (0 <? n).
+Proof. unfold fixup_guard. lia. Qed.
+
+(* all regenerated guard comparisons at once (second half of the Gen_resolver re-check) *)
+Lemma Gen_resolver_guards_ok :
+  (forall p l, ovf_check p l = (l <=? p)) /\
+  (forall p o, pointer_guard p o = (o <=? p)) /\
+  (forall cp cw np nw, srv_swap cp cw np nw = ((np <? cp) || ((cp =? np) && (cw <? nw)))) /\
+  (forall i l, idx_guard i l = (l <=? i)) /\
+  (forall e l, label_end_guard e l = (l <=? e)) /\ label_end_adjust = 1 /\
+  (forall nlen nmax, name_full nlen nmax = ((nmax <=? nlen) && (0 <? nmax))) /\
+  (forall nmax nlen, room_left nmax nlen = Z.max 0 (nmax - nlen)) /\
+  (forall c, copy_guard c = (0 <? c)) /\
+  (forall m, term_guard m = (0 <? m)) /\
+  (forall n, fixup_guard n = (0 <? n)).
+Proof.
+  repeat split; intros.
+  - apply ovf_check_spec.
+  - apply pointer_guard_spec.
+  - apply srv_swap_spec.
+  - apply idx_guard_spec.
+  - apply label_end_guard_spec.
+  - apply name_full_spec.
+  - apply room_left_spec.
+  - apply copy_guard_spec.
+  - apply term_guard_spec.
+  - apply fixup_guard_spec.
+Qed.
+
 (* ------------------------------------------------------------------------------------------ *)
 (* resolver_srv_list_sort                                                                      *)
 (* ------------------------------------------------------------------------------------------ *)
@@ -302,7 +345,7 @@ Lemma append_label_ok buf src tgt base nlen nmax tl :
   tgt_ok tgt (Some base) nmax -> 0 <= nlen -> 0 <= src -> 0 <= tl -> src + tl <= zlen buf ->
   exists tgt', append_label buf src tgt base nlen nmax tl = Some (tgt', nlen + tl) /\ zlen tgt' = zlen tgt.
 Proof.
-  intros (Hb & Hm & Hlen) Hn Hs Ht Hsrc. unfold append_label, append_copy_len.
+  intros (Hb & Hm & Hlen) Hn Hs Ht Hsrc. unfold append_label, append_copy_len, room_left, copy_guard.
   set (cl := Z.min tl (if nmax >? nlen then nmax - nlen else 0)).
   assert (Hcl : 0 <= cl <= tl /\ (cl > 0 -> nlen + cl <= nmax)) by (subst cl; destruct (nmax >? nlen) eqn:E; lia).
   destruct (cl >? 0) eqn:E; [|eexists; split; reflexivity].
@@ -314,7 +357,7 @@ Lemma append_dot_ok tgt base nlen nmax :
   tgt_ok tgt (Some base) nmax -> 0 <= nlen ->
   exists tgt', append_dot tgt base nlen nmax = Some (tgt', nlen + 1) /\ zlen tgt' = zlen tgt.
 Proof.
-  intros (Hb & Hm & Hlen) Hn. unfold append_dot, append_copy_len.
+  intros (Hb & Hm & Hlen) Hn. unfold append_dot, append_copy_len, room_left, copy_guard.
   destruct (Z.min 1 (if nmax >? nlen then nmax - nlen else 0) >? 0) eqn:E; [|eexists; split; reflexivity].
   destruct (wr_ok tgt (base + nlen) 46) as [t' W]; [destruct (nmax >? nlen) eqn:E2; lia|].
   rewrite W. apply wr_inv in W. eexists; split; [reflexivity|tauto].
@@ -338,7 +381,7 @@ Lemma name_finish_ok blen off i tgt name nlen nmax :
   blen <= 65536 -> 0 <= off -> off + 1 <= i <= blen -> 0 <= nlen -> tgt_ok tgt name nmax ->
   npost blen off tgt name nmax (name_finish off i tgt name nlen nmax).
 Proof.
-  intros HL Ho Hi Hn Hok. unfold name_finish.
+  intros HL Ho Hi Hn Hok. unfold name_finish, term_guard.
   assert (Hrc : u32 (i - off) = i - off) by (apply u32_small; lia).
   set (nl := if nlen =? 0 then 1 else nlen). assert (Hnl : 1 <= nl) by (subst nl; destruct (nlen =? 0) eqn:E; lia).
   destruct name as [base|]; cbn [tgt_ok] in Hok.
@@ -361,7 +404,7 @@ Lemma name_loop_ok rec buf blen off :
 Proof.
   intros HB HL Hsz Ho Hrec.
   induction f as [|f IH]; intros i tgt name nlen nmax Hi Hf Hf1 Hn Hok; [lia|].
-  cbn [name_loop].
+  cbn [name_loop]. unfold idx_guard, label_end_guard, label_end_adjust, name_full, room_left, fixup_guard.
   assert (Ret0 : forall t, zlen t = zlen tgt -> (name = None -> t = tgt) -> npost blen off tgt name nmax (NRet 0 t)).
   { intros t Ht Hnone. cbn [npost]. repeat split; auto. try (intros X; congruence). }
   destruct (i >=? blen) eqn:E1; [apply Ret0; auto|].
@@ -842,12 +885,12 @@ Proof.
   induction 1 as [lim off H0|lim off n lab rest e H0 Hn Hs Hr IH|lim off hi lo p rest e' Hhi Hr1 Hlo Hp Hlt Hsub _];
     intros Hrec Hle f t nlen nmax Hf; assert (Hbl : blen <= 65536) by exact Hsz.
   - rewrite octet_rd in H0. pose proof (rd_bound _ _ _ H0) as B. fold blen in B.
-    destruct f as [|f]; [lia|]. cbn [name_loop].
+    destruct f as [|f]; [lia|]. cbn [name_loop]. unfold idx_guard, label_end_guard, label_end_adjust, name_full, room_left, fixup_guard.
     destruct (off >=? blen) eqn:E; [lia|]. rewrite H0. rewrite u32_small by lia.
-    cbn [Z.eqb]. unfold name_finish. rewrite u32_small by lia. f_equal; lia.
+    cbn [Z.eqb]. unfold name_finish, term_guard. rewrite u32_small by lia. f_equal; lia.
   - rewrite octet_rd in H0. pose proof (rd_bound _ _ _ H0) as B. fold blen in B.
     apply slice_spec in Hs. destruct Hs as (S1 & S2 & S3 & S4 & S5). fold blen in S3. unfold MAX_LABEL in Hn.
-    destruct f as [|f]; [lia|]. cbn [name_loop].
+    destruct f as [|f]; [lia|]. cbn [name_loop]. unfold idx_guard, label_end_guard, label_end_adjust, name_full, room_left, fixup_guard.
     destruct (off >=? blen) eqn:E; [lia|]. rewrite H0. rewrite (u32_small (off + 1)) by lia.
     destruct (n =? 0) eqn:E0; [lia|].
     rewrite label_type_octet by lia. replace (n / 64 * 64) with 0 by lia.
@@ -857,7 +900,7 @@ Proof.
     apply IH; auto; lia.
   - rewrite octet_rd in Hhi, Hlo. pose proof (rd_bound _ _ _ Hhi) as B. pose proof (rd_bound _ _ _ Hlo) as B2.
     fold blen in B, B2. pose proof (rd_byte _ _ _ HB Hlo) as Blo. unfold POINTER_TAG in *.
-    destruct f as [|f]; [lia|]. cbn [name_loop].
+    destruct f as [|f]; [lia|]. cbn [name_loop]. unfold idx_guard, label_end_guard, label_end_adjust, name_full, room_left, fixup_guard.
     destruct (off >=? blen) eqn:E; [lia|]. rewrite Hhi. rewrite (u32_small (off + 1)) by lia.
     destruct (hi =? 0) eqn:E0; [lia|].
     rewrite label_type_octet by lia. replace (hi / 64 * 64) with 192 by lia.
@@ -906,9 +949,9 @@ Proof.
     intros Hrec Hle Htxt f tgt base nlen nmax Hf Hbase Hnlen Hroom Hfit; assert (Hbl : blen <= 65536) by exact Hsz.
   - (* root *)
     rewrite octet_rd in H0. pose proof (rd_bound _ _ _ H0) as B. fold blen in B.
-    destruct f as [|f]; [lia|]. cbn [name_loop].
+    destruct f as [|f]; [lia|]. cbn [name_loop]. unfold idx_guard, label_end_guard, label_end_adjust, name_full, room_left, fixup_guard.
     destruct (off >=? blen) eqn:E; [lia|]. rewrite H0. rewrite u32_small by lia.
-    cbn [Z.eqb]. unfold name_finish. cbn [tail_text] in *. change (zlen (@nil Z)) with 0 in *.
+    cbn [Z.eqb]. unfold name_finish, term_guard. cbn [tail_text] in *. change (zlen (@nil Z)) with 0 in *.
     destruct (nmax >? 0) eqn:E1; [|lia].
     set (nl := if nlen =? 0 then 1 else nlen).
     assert (Hnl : nl = Z.max nlen 1) by (subst nl; destruct (nlen =? 0) eqn:E2; lia).
@@ -925,20 +968,20 @@ Proof.
     cbn [tail_text] in *. set (Tr := tail_text rest) in *.
     assert (HT : zlen (lab ++ 46 :: Tr) = zlen lab + 1 + zlen Tr) by (unfold zlen; rewrite app_length; cbn [length]; lia).
     rewrite HT in *. assert (HTr : 0 <= zlen Tr) by (unfold zlen; lia).
-    destruct f as [|f]; [lia|]. cbn [name_loop].
+    destruct f as [|f]; [lia|]. cbn [name_loop]. unfold idx_guard, label_end_guard, label_end_adjust, name_full, room_left, fixup_guard.
     destruct (off >=? blen) eqn:E; [lia|]. rewrite H0. rewrite (u32_small (off + 1)) by lia.
     destruct (zlen lab =? 0) eqn:E0; [lia|].
     rewrite label_type_octet by lia. replace (zlen lab / 64 * 64) with 0 by lia.
     change (0 =? label_tag) with true. cbn iota.
     rewrite (u32_small (off + 1 + zlen lab - 1)), (u32_small (off + 1 + zlen lab)) by lia.
     destruct (off + 1 + zlen lab - 1 >=? blen) eqn:E2; [lia|].
-    unfold append_label, append_copy_len.
+    unfold append_label, append_copy_len, room_left, copy_guard.
     destruct (nmax >? nlen) eqn:E3; [|lia].
     replace (Z.min (zlen lab) (nmax - nlen)) with (zlen lab) by lia.
     destruct (zlen lab >? 0) eqn:E4; [|lia].
     destruct (copy_bytes_ok (Z.to_nat (zlen lab)) buf (off + 1) tgt (base + nlen)) as (t1 & C1 & L1); try (fold blen; lia).
     rewrite C1. apply copy_bytes_spec in C1. destruct C1 as (_ & C1 & O1).
-    unfold append_dot, append_copy_len.
+    unfold append_dot, append_copy_len, room_left, copy_guard.
     destruct (nmax >? nlen + zlen lab) eqn:E5; [|lia].
     replace (Z.min 1 (nmax - (nlen + zlen lab))) with 1 by lia. cbn [Z.gtb Z.compare].
     destruct (wr_ok t1 (base + (nlen + zlen lab)) 46) as [t2 W]; [lia|]. rewrite W.
@@ -965,7 +1008,7 @@ Proof.
     rewrite octet_rd in Hhi, Hlo. pose proof (rd_bound _ _ _ Hhi) as B. pose proof (rd_bound _ _ _ Hlo) as B2.
     fold blen in B, B2. pose proof (rd_byte _ _ _ HB Hlo) as Blo. unfold POINTER_TAG in *.
     set (T := tail_text rest) in *. assert (HT0 : 0 <= zlen T) by (unfold zlen; lia).
-    destruct f as [|f]; [lia|]. cbn [name_loop].
+    destruct f as [|f]; [lia|]. cbn [name_loop]. unfold idx_guard, label_end_guard, label_end_adjust, name_full, room_left, fixup_guard.
     destruct (off >=? blen) eqn:E; [lia|]. rewrite Hhi. rewrite (u32_small (off + 1)) by lia.
     destruct (hi =? 0) eqn:E0; [lia|].
     rewrite label_type_octet by lia. replace (hi / 64 * 64) with 192 by lia.
